@@ -40,7 +40,18 @@ def trigBlankFirst (s : Str) : Bool :=
   | .ok D => D.any fun p => p.any fun f => blankFirstValue f.2
   | .error _ => false
 
-/-! ## the trigger on well-formed text -/
+/-! ## the trigger of F-C20-10 (apt sources list), on one printed field
+
+`Signed-By: #a` + ` b` is read as the key block `#a\nb`, which prints as `Signed-By:` + ` #a` + ` b`: the
+line ` #a` is a comment for the reader.  The driver emits `!F-C20-10` when a printed repository has such a
+field; `C20Apt.C20_roundtrip_repos_shipped_keyblock` has its negation as hypothesis. -/
+
+def kSignedBy : Str := c!"Signed-By"
+/-- start of a printed key block whose first line starts with `#` -/
+def hashBlock : Str := c!"\n#"
+def signedHashField (e : Str × Str) : Bool := e.1 == kSignedBy && hashBlock.isPrefixOf e.2
+
+/-! ## the trigger of F-C20-9 on well-formed text -/
 
 theorem join_head_of_ne (l : Str) (ls : List Str) (h : l ≠ []) :
     (Text.join ['\n'] (l :: ls)).head? = l.head? := by
